@@ -924,9 +924,10 @@ class Qobj:
             raise TypeError("expm is only valid for square operators")
         if dtype is None and isinstance(self.data, (_data.CSR, _data.Dia)):
             dtype = _data.Dense
+        # The exponential of a non-Hermitian operator can be Hermitian.
         return Qobj(_data.expm(self._data, dtype=dtype),
                     dims=self._dims,
-                    isherm=self._isherm,
+                    isherm=self._isherm or None,
                     copy=False,
                     dtype=dtype)
 
